@@ -3,9 +3,17 @@ use crate::engine::{Entry, entry};
 pub mod c32;
 pub mod packet;
 pub mod server;
+pub mod source;
 
 pub fn registry() -> Vec<Entry> {
     vec![
+        entry::<source::C07>(false),
+        entry::<source::C08>(false),
+        entry::<source::C09>(false),
+        entry::<source::C10>(false),
+        entry::<source::C11>(false),
+        entry::<source::C12>(false),
+        entry::<source::C13>(false),
         entry::<server::C15>(false),
         entry::<server::C16>(false),
         entry::<server::C17>(false),
